@@ -661,6 +661,7 @@ func runJournalTrips(c *Ctx) {
 	nSites := 0
 	bb := newBinder(c)
 	bb.showBodies = true
+	bb.catForm = true // Sprintf("%d%s", ..) and FormatInt(.., 10) + .. are the same text
 	if okUID {
 		// every call of the UID helper, read together with what the helper computes from its arguments, is
 		// "%d%s" of (X.ID.StartDate.Add(X.ID.StartTime)).Unix() and X.ID.ID (possibly without its origin-time prefix) for
@@ -705,7 +706,7 @@ func runJournalTrips(c *Ctx) {
 						x = body[st:m]
 					}
 					want1 := "time.Time.Unix(time.Time.Add(" + x + ".ID.StartDate," + x + ".ID.StartTime))"
-					if x == "" || !strings.Contains(body, want1) || !strings.Contains(body, x+".ID.ID") || !strings.Contains(body, `fmt.Sprintf(const:"%d%s"`) {
+					if x == "" || !strings.Contains(body, "cat[dec("+want1+"), ") || !strings.Contains(body, x+".ID.ID") {
 						okUID, whyUID = false, fmt.Sprintf("%s builds a UID that is not \"%%d%%s\" of X.ID.StartDate.Add(X.ID.StartTime).Unix() and X.ID.ID for one trip update X: %s", shortName(fn), clip(e, 200))
 					}
 				}
